@@ -21,6 +21,7 @@ import sys
 
 from mon import refbufr as R
 from mon.gen import streams
+from mon.timelimit import time_limit, CaseTimeout
 
 ID = 'C12'
 LEVEL = 'fault_enumeration'
@@ -134,10 +135,13 @@ def suffix_check(ctx, dec, msg, other):
 
 
 def collect(gen, cap, out):
-    """run the generator, appending yielded bytes to `out`; returns the exception or None"""
+    """run the generator, appending yielded bytes to `out`; returns the exception or None.
+    A damaged message can make the library interpret garbage as a huge replication count; the
+    watchdog (8 s) turns that into a skipped case (CaseTimeout is returned, never judged)."""
     try:
-        for m in itertools.islice(gen, cap + 1):
-            out.append(m.serialized_bytes)
+        with time_limit(8):
+            for m in itertools.islice(gen, cap + 1):
+                out.append(m.serialized_bytes)
     except BaseException as e:
         return e
     return None
@@ -170,7 +174,9 @@ def stream_case(ctx, dec, msgs, damage, spec_base):
     finally:
         sys.stderr.close()
         sys.stderr = saved
-    if exc is not None:
+    if isinstance(exc, CaseTimeout):
+        ctx.count('case_timeouts')
+    elif exc is not None:
         ctx.violate('continue-on-error/escapes:%s/%s' % (type(exc).__name__, ksig),
                     'with continue-on-error %s escaped from the scan (faults: %s)' % (type(exc).__name__, ksig), spec, exc=exc)
     else:
@@ -200,7 +206,9 @@ def stream_case(ctx, dec, msgs, damage, spec_base):
     finally:
         sys.stderr.close()
         sys.stderr = saved
-    if exc is not None:
+    if isinstance(exc, CaseTimeout):
+        ctx.count('case_timeouts')
+    elif exc is not None:
         ctx.violate('continue-on-error/info-only/escapes:%s/%s' % (type(exc).__name__, ksig),
                     'info-only scan with continue-on-error: %s escaped' % type(exc).__name__, spec, exc=exc)
     else:
@@ -222,7 +230,9 @@ def stream_case(ctx, dec, msgs, damage, spec_base):
         exc = collect(generate_bufr_message(dec, stream), cap, got)
         want = [m.bytes for i, m in enumerate(msgs) if i < first]
         k = damage[first]
-        if exc is None:
+        if isinstance(exc, CaseTimeout):
+            ctx.count('case_timeouts')
+        elif exc is None:
             ctx.violate('no-continue/no-error/%s' % k[0], 'scan without continue-on-error ended without an error although message %d '
                         'is damaged (%s %s)' % (first, k[0], k[1]), spec)
         else:
@@ -243,16 +253,24 @@ def cli_check(ctx, stream, scratch, tag, spec, real_subprocess=False):
         f.write(stream)
     ctx.count('cli_checks')
     for args in (['decode', '-m', path], ['decode', '-m', '--continue-on-error', path], ['info', '-m', path]):
-        so, se, exc, code = run_cli(args)
+        with time_limit(20):
+            so, se, exc, code = run_cli(args)
+        if isinstance(exc, CaseTimeout):
+            ctx.count('case_timeouts')
+            continue
         if exc is not None:
             ctx.violate('cli-traceback:%s/%s' % (type(exc).__name__, args[0]),
                         'pybufrkit %s on a damaged stream ends with an uncaught %s' % (' '.join(args[:-1]), type(exc).__name__),
                         spec, exc=exc)
     if real_subprocess:
         env = dict(os.environ)
-        p = subprocess.run([sys.executable, '-m', 'pybufrkit', 'decode', '-m', path], capture_output=True, timeout=120, env=env)
+        try:
+            p = subprocess.run([sys.executable, '-m', 'pybufrkit', 'decode', '-m', path], capture_output=True, timeout=60, env=env)
+        except subprocess.TimeoutExpired:
+            ctx.count('case_timeouts')
+            p = None
         ctx.count('cli_subprocess_checks')
-        if b'Traceback' in p.stderr:
+        if p is not None and b'Traceback' in p.stderr:
             ctx.violate('cli-traceback/subprocess', 'python -m pybufrkit decode -m prints a traceback: %s'
                         % p.stderr.decode('latin-1')[-300:], spec)
     os.remove(path)
